@@ -255,6 +255,8 @@ def run(ctx, idx):
     ctx.rule("C08.d", "Integer data: no dtype-pinned in-place arithmetic in conversion bodies whose input may be integer (C07.a's rule).")
     ctx.rule("C08.e", "Every conversion uses its data input (D(ret) ⊇ input); statistics are mask-aware (reported under C03.b).")
     ctx.rule("C08.f", "Every fuzzy producer's return dtype is Float (discharges the inductive hypothesis used for fuzzy-typed inputs).")
+    ctx.rule("C08.m", "NormalizeMeanToMid: when an end of the five control points coincides with the mean next to it, the inner point is removed from the raw and from the normal values at the same index (the extreme keeps the end value of the curve); no mapping over the pairs.")
+    mean_to_mid_dedupe(ctx, idx, "C08.m")
     res = {}
     for d, r in R.results(idx).values():
         res.setdefault(d.cls.name, (d, r))
@@ -375,6 +377,210 @@ def run(ctx, idx):
     _c08_tail(ctx, idx, res, n)
 
 
+class _Unknown(Exception):
+    pass
+
+
+def _eval_dedupe(idx, fi, node):
+    """Symbolic run of NormalizeMeanToMid's control-point clean-up.  Returns ([problem, ...], line) or a string (cannot decide)."""
+    body = node.body
+    raw_name = normal_name = None
+    start = None
+    for i, st in enumerate(body):
+        if isinstance(st, ast.Assign) and len(st.targets) == 1 and isinstance(st.targets[0], ast.Name):
+            if isinstance(st.value, ast.List) and len(st.value.elts) == 5:
+                raw_name, start = st.targets[0].id, max(start or 0, i + 1)
+            elif "NormalValues" in K.src(st.value) and not isinstance(st.value, (ast.Dict, ast.Call)) or (isinstance(st.value, ast.Call) and K.src(st.value.func) in ("list", "copy.copy", "copy") and "NormalValues" in K.src(st.value)):
+                normal_name, start = st.targets[0].id, max(start or 0, i + 1)
+    if raw_name is None or normal_name is None:
+        return "the five control points and the copy of NormalValues are not bound to two local lists; the form used is outside this rule"
+    first_line = body[start].lineno if start < len(body) else node.lineno
+
+    def run(low, high):
+        cls_ = {"r0": 0, "r1": 0 if low else 1, "r2": 2, "r3": 4 if high else 3, "r4": 4}
+        env = {raw_name: ["r0", "r1", "r2", "r3", "r4"], normal_name: ["n0", "n1", "n2", "n3", "n4"]}
+
+        def ev(e):
+            if isinstance(e, ast.Constant):
+                return e.value
+            if isinstance(e, ast.Name):
+                if e.id in env:
+                    return env[e.id]
+                r = idx.resolve(fi.module, e, fi)
+                if r is not None and r[0] == "const" and r[1].consts.get(r[2]) is not None:
+                    return ev(r[1].consts[r[2]])
+                raise _Unknown("name `%s`" % e.id)
+            if isinstance(e, (ast.Tuple, ast.List)):
+                return [ev(x) for x in e.elts] if isinstance(e, ast.List) else tuple(ev(x) for x in e.elts)
+            if isinstance(e, ast.UnaryOp) and isinstance(e.op, ast.USub):
+                return -ev(e.operand)
+            if isinstance(e, ast.UnaryOp) and isinstance(e.op, ast.Not):
+                return not ev(e.operand)
+            if isinstance(e, ast.BinOp) and isinstance(e.op, (ast.Add, ast.Sub)):
+                a, b = ev(e.left), ev(e.right)
+                return a + b if isinstance(e.op, ast.Add) else a - b
+            if isinstance(e, ast.Subscript):
+                v, i_ = ev(e.value), ev(e.slice) if not isinstance(e.slice, ast.Slice) else None
+                if isinstance(e.slice, ast.Slice):
+                    lo = ev(e.slice.lower) if e.slice.lower is not None else None
+                    hi = ev(e.slice.upper) if e.slice.upper is not None else None
+                    return v[lo:hi]
+                return v[i_]
+            if isinstance(e, ast.Compare) and len(e.ops) == 1 and isinstance(e.ops[0], (ast.Eq, ast.NotEq, ast.Lt, ast.Gt, ast.LtE, ast.GtE, ast.In, ast.NotIn)):
+                a, b = ev(e.left), ev(e.comparators[0])
+                if isinstance(a, str) and isinstance(b, str) and a in cls_ and b in cls_:
+                    if isinstance(e.ops[0], (ast.Eq, ast.NotEq)):
+                        return (cls_[a] == cls_[b]) == isinstance(e.ops[0], ast.Eq)
+                    raise _Unknown("order comparison of control points")
+                if isinstance(e.ops[0], ast.Eq):
+                    return a == b
+                if isinstance(e.ops[0], ast.NotEq):
+                    return a != b
+                if isinstance(e.ops[0], ast.In):
+                    return a in b
+                if isinstance(e.ops[0], ast.NotIn):
+                    return a not in b
+                return {ast.Lt: a < b, ast.Gt: a > b, ast.LtE: a <= b, ast.GtE: a >= b}[type(e.ops[0])]
+            if isinstance(e, ast.BoolOp):
+                vals = [ev(x) for x in e.values]
+                return all(vals) if isinstance(e.op, ast.And) else any(vals)
+            if isinstance(e, ast.Call) and isinstance(e.func, ast.Name) and e.func.id in ("len", "sorted", "reversed", "list", "tuple", "range", "enumerate") and not e.keywords:
+                args = [ev(a) for a in e.args]
+                return {"len": len, "sorted": sorted, "reversed": lambda x: list(reversed(x)), "list": list, "tuple": tuple, "range": lambda *a: list(range(*a)), "enumerate": lambda x: list(enumerate(x))}[e.func.id](*args)
+            if isinstance(e, ast.Call) and isinstance(e.func, ast.Name) and e.func.id == "sorted" and len(e.args) == 1 and [k.arg for k in e.keywords] == ["reverse"]:
+                return sorted(ev(e.args[0]), reverse=bool(ev(e.keywords[0].value)))
+            if isinstance(e, (ast.ListComp, ast.GeneratorExp)) and len(e.generators) == 1:
+                g = e.generators[0]
+                out = []
+                for item in ev(g.iter):
+                    bind(g.target, item)
+                    if all(ev(c) for c in g.ifs):
+                        out.append(ev(e.elt))
+                return out
+            raise _Unknown("expression `%s`" % K.src(e)[:50])
+
+        def bind(t, v):
+            if isinstance(t, ast.Name):
+                env[t.id] = v
+            elif isinstance(t, (ast.Tuple, ast.List)):
+                v = list(v)
+                if len(v) != len(t.elts):
+                    raise _Unknown("unpacking")
+                for tt, vv in zip(t.elts, v):
+                    bind(tt, vv)
+            else:
+                raise _Unknown("assignment target `%s`" % K.src(t)[:40])
+
+        class _Stop(Exception):
+            pass
+
+        def mentions(st):
+            return {x.id for x in ast.walk(st) if isinstance(x, ast.Name)} & {raw_name, normal_name}
+
+        def ex(stmts, depth=0):
+            for st in stmts:
+                if isinstance(st, ast.Return):
+                    raise _Stop()
+                if isinstance(st, ast.If):
+                    ex(st.body if ev(st.test) else st.orelse, depth + 1)
+                elif isinstance(st, ast.For):
+                    for item in list(ev(st.iter)):
+                        bind(st.target, item)
+                        ex(st.body, depth + 1)
+                elif isinstance(st, ast.Delete):
+                    for t in st.targets:
+                        if not (isinstance(t, ast.Subscript) and isinstance(t.value, ast.Name) and t.value.id in env):
+                            raise _Unknown("del `%s`" % K.src(t)[:40])
+                        seq = env[t.value.id]
+                        if isinstance(t.slice, ast.Slice):
+                            lo = ev(t.slice.lower) if t.slice.lower is not None else None
+                            hi = ev(t.slice.upper) if t.slice.upper is not None else None
+                            del seq[lo:hi]
+                        else:
+                            del seq[ev(t.slice)]
+                elif isinstance(st, ast.Expr) and isinstance(st.value, ast.Call) and isinstance(st.value.func, ast.Attribute) and isinstance(st.value.func.value, ast.Name) and st.value.func.value.id in env \
+                        and st.value.func.attr in ("pop", "append", "remove", "insert"):
+                    seq = env[st.value.func.value.id]
+                    args = [ev(a) for a in st.value.args]
+                    getattr(seq, st.value.func.attr)(*args)
+                elif isinstance(st, ast.Assign) and isinstance(st.value, ast.Call) and K.src(st.value.func) in ("dict", "copy.copy", "copy", "OrderedDict") and any(k_.arg for k_ in st.value.keywords):
+                    pass  # the finished lists handed on as keyword arguments of the curve
+                elif isinstance(st, ast.Assign) and len(st.targets) == 1 and isinstance(st.targets[0], (ast.Name, ast.Tuple)) and (mentions(st) or depth > 0 or isinstance(st.value, (ast.ListComp, ast.Tuple, ast.List, ast.Constant))):
+                    try:
+                        bind(st.targets[0], ev(st.value))
+                    except _Unknown:
+                        if mentions(st):
+                            raise
+                elif mentions(st) and not (isinstance(st, ast.Assign) and all(isinstance(t, ast.Subscript) for t in st.targets)) and not (isinstance(st, ast.Expr) and isinstance(st.value, ast.Call) and K.src(st.value.func).endswith(".update")) \
+                        and not (isinstance(st, ast.Assign) and isinstance(st.value, ast.Call) and K.src(st.value.func) in ("dict", "copy.copy")):
+                    raise _Unknown("statement `%s`" % K.src(st)[:50])
+
+        try:
+            ex(body[start:])
+        except _Stop:
+            pass
+        except (IndexError, ValueError, TypeError) as e_:
+            return None, "the clean-up itself fails (%s: %s)" % (type(e_).__name__, e_)
+        return (list(env[raw_name]), list(env[normal_name])), None
+
+    probs = []
+    for low in (False, True):
+        for high in (False, True):
+            try:
+                got, err = run(low, high)
+            except _Unknown as u:
+                return "the control-point clean-up of NormalizeMeanToMid uses %s, which the symbolic evaluation does not cover" % u
+            keep = [i for i in range(5) if not (low and i == 1) and not (high and i == 3)]
+            sit = "%s, %s" % ("the minimum equals the low mean" if low else "the minimum differs from the low mean", "the maximum equals the high mean" if high else "the maximum differs from the high mean")
+            if err:
+                probs.append("when %s: %s" % (sit, err))
+                continue
+            raw_g, nor_g = got
+            cls_ = {"r0": 0, "r1": 0 if low else 1, "r2": 2, "r3": 4 if high else 3, "r4": 4}
+            want_raw = [cls_["r%d" % i] for i in keep]
+            want_nor = ["n%d" % i for i in keep]
+            if [cls_.get(x, x) for x in raw_g] != want_raw or nor_g != want_nor:
+                probs.append("when %s, the curve is handed the raw values %s with the normal values %s instead of %s with %s: %s" % (
+                    sit, "[%s]" % ", ".join(raw_g), "[%s]" % ", ".join(nor_g), "[%s]" % ", ".join("r%d" % i for i in keep), "[%s]" % ", ".join(want_nor),
+                    "an extreme loses the end value of the curve" if len(nor_g) == len(want_nor) else "raw and normal values no longer pair up / a coinciding point is left in (a repeated raw value)"))
+    return probs, first_line
+
+
+def mean_to_mid_dedupe(ctx, idx, rule, consequence=""):
+    """Read before the array analyser runs.  When an end point of NormalizeMeanToMid's five control points coincides with the mean
+    next to it, the INNER point goes - from the raw values and from the normal values at the same index - so the extreme keeps the
+    end value of the curve.  Accepted: `if raw[i] == raw[j]: del raw[k]; del normal[k]` with k the inner index of the pair, on
+    both lists.  A mapping built from the (raw, normal) pairs keeps the first position and the LAST value of a repeated key: at the
+    low end the minimum then gets the value meant for the low mean."""
+    ci = idx.cls("mpilot.libraries.eems.basic", "NormalizeMeanToMid")
+    fi = ci.methods.get("execute") if ci is not None else None
+    if fi is None:
+        raise AnalysisError("%s: NormalizeMeanToMid.execute vanished" % rule)
+    node = getattr(fi, "node_orig", None) or fi.node
+    con = "%s::coinciding-points-drop-the-inner-one" % fi.key
+    rel = K.rel(fi)
+    for x in ast.walk(node):
+        mapping = None
+        if isinstance(x, ast.Call) and K.src(x.func).split(".")[-1] in ("dict", "OrderedDict") and x.args and isinstance(x.args[0], ast.Call) and K.src(x.args[0].func) == "zip":
+            mapping = x
+        if isinstance(x, ast.DictComp) and isinstance(x.generators[0].iter, ast.Call) and K.src(x.generators[0].iter.func) == "zip":
+            mapping = x
+        if mapping is not None:
+            ctx.violate(rule, con, rel, x.lineno, "`%s`: the (raw, normal) pairs are put through a mapping to drop coinciding control points - a repeated key keeps its first position but takes the LAST value, so when the minimum equals the low mean the minimum is given the second normal value instead of the first" % K.src(x)[:60] + consequence)
+            return
+    # the statements that drop coinciding points are EVALUATED on five symbolic control points, once for each of the four
+    # situations (low end coincides or not) x (high end coincides or not): whatever their form - two `if`s, a loop over index
+    # pairs, a list of indices collected first - the lists that come out must be the five points without the inner one(s)
+    verdict = _eval_dedupe(idx, fi, node)
+    if isinstance(verdict, str):
+        raise AnalysisError("%s: %s" % (rule, verdict))
+    bad, line_ = verdict
+    if bad:
+        ctx.violate(rule, con, rel, line_, bad[0] + consequence)
+    else:
+        ctx.hold(rule, con, rel, line_, "evaluated for the four coincidence situations: the inner point goes from the raw and the normal values alike, the extremes keep the end values of the curve")
+
+
 def mean_to_mid_points(ctx, idx, res, rule):
     """the five control points NormalizeMeanToMid hands to the curve: min(all), three means, max(all)"""
     d, r = res["NormalizeMeanToMid"]
@@ -405,6 +611,27 @@ def mean_to_mid_points(ctx, idx, res, rule):
         if not all(sy and sy.startswith("stat:mean(") for sy in syms[1:4]):
             probs.append("the inner control points are %s, not means" % syms[1:4])
         ctx.ob(rule, con, d.module.rel, sup[0][0].lineno, not probs, "control points: min(all), mean, mean, mean, max(all)" if not probs else "; ".join(probs) + " (IgnoreZeros is documented to affect only the means)")
+    # the two half means are taken over the two sides of the overall mean, every cell on exactly one side
+    con2 = "%s.execute::halves-partition-the-cells" % d.key
+    halves = [h for h in r.half_stats if h[1] == "mean"]
+    groups = {}
+    for node_, meth_, (op_, sid_, pop_), fk_ in halves:
+        groups.setdefault((sid_, pop_), []).append((op_, node_))
+    if not groups:
+        raise AnalysisError("%s: the means below and above the overall mean are not taken over `x[x <op> mean]` / masked_<op>(x, mean) selections; the form used is outside this rule" % rule)
+    for (sid_, pop_), ops_ in sorted(groups.items(), key=lambda kv: str(kv[0])):
+        kinds = sorted({o_ for o_, _n in ops_})
+        line_ = ops_[0][1].lineno
+        if kinds == ["Head", "Tail"]:
+            ctx.hold(rule, con2, d.module.rel, line_, "the sorted values are cut once, at the position of the overall mean: the two means are taken over the two sides of that cut")
+        elif kinds in (["Gt", "LtE"], ["GtE", "Lt"]):
+            ctx.hold(rule, con2, d.module.rel, line_, "one mean over the cells %s the overall mean, the other over the rest" % ("<=" if "LtE" in kinds else "<"))
+        elif kinds == ["GtE", "LtE"]:
+            ctx.violate(rule, con2, d.module.rel, line_, "both half means include the cells EQUAL to the overall mean (`<=` and `>=`): such a cell is counted twice, which pulls the upper control point towards the mean and changes the conversion of every cell between the mean and the maximum (small integer and symmetric grids have such cells)")
+        elif kinds == ["Gt", "Lt"]:
+            ctx.violate(rule, con2, d.module.rel, line_, "neither half mean includes the cells EQUAL to the overall mean (`<` and `>`): such cells drop out of both control points")
+        else:
+            ctx.violate(rule, con2, d.module.rel, line_, "the half means are taken over %s of the overall mean: not the two sides of it" % " and ".join(kinds))
 
 
 def _c08_tail(ctx, idx, res, n):
